@@ -26,7 +26,7 @@ func (c *FnCtx) makeInterface(v Val, from types.Type, to types.Type) Val {
 		if _, ok := v.Fn.(*localRef); ok {
 			panic(unsupported("interface holding pointer to promoted local"))
 		}
-		return Val{T: to, L: []*Term{tag, v.L[0], v.L[1]}}
+		return Val{T: to, L: []*Term{tag, v.L[0], v.L[1]}, Root: v.Root, Base: v.Base, Dyn: from}
 	}
 	// value types are boxed by an injective uninterpreted function of their leaves
 	ls := leavesOf(from)
@@ -261,6 +261,21 @@ func (f *frame) callStatic(callee *ssa.Function, bindings []Val, args []Val, st 
 func (f *frame) afterCallLets(sk string, ord int, args, res []Val, st *State) {
 	if f.spec == nil || !f.top {
 		return
+	}
+	for _, a := range f.spec.Asserts {
+		if a.Callee != sk || a.Ordinal != ord || !a.After || !a.Assume {
+			continue
+		}
+		f.c.hookHits[fmt.Sprintf("call %s#%d", sk, ord)] = true
+		env := f.hereEnv(st)
+		for i := range args {
+			env.vars[fmt.Sprintf("arg%d", i)] = args[i]
+		}
+		for i := range res {
+			env.vars[fmt.Sprintf("result%d", i)] = res[i]
+		}
+		f.c.assume(st.reach, env.evalBool(a.Expr))
+		f.c.assumed["assumed after call "+sk+": "+a.Src] = true
 	}
 	for _, l := range f.spec.Lets {
 		if l.Callee != sk || l.Ordinal != ord {
@@ -530,7 +545,7 @@ func (f *frame) callSiteHooks(sk string, ord int, args []Val, pnames []string, s
 		fmt.Fprintf(os.Stderr, "call site in %s: %s#%d top=%v\n", f.fn.Name(), sk, ord, f.top)
 	}
 	for _, a := range f.spec.Asserts {
-		if a.Callee != sk || a.Ordinal != ord {
+		if a.Callee != sk || a.Ordinal != ord || a.After {
 			continue
 		}
 		if f.top {
@@ -598,9 +613,41 @@ func (env *Env) evalModLoc(x ast.Expr, src string) []modLoc {
 				// family(T): every cell of every object of type T (used for value-like foreign types)
 				typ := env.c.eng.resolveTypeExpr(env.pkg, call.Args[0])
 				return []modLoc{{root: typ, lo: 0, hi: len(leavesOf(typ)), obj: IntT(0), anyObj: true, allIdx: true, src: src}}
+			case "pointee":
+				// pointee(x): what the pointer held by the interface value x points to (x made from a pointer at a site
+				// the symbolic execution has seen, e.g. json.Unmarshal(data, &v))
+				v := env.eval(call.Args[0])
+				pt, ok := v.Dyn, v.Dyn != nil
+				if ok {
+					_, ok = pt.Underlying().(*types.Pointer)
+				}
+				if !ok || v.Root == nil || len(v.L) != 3 {
+					panic(specErr("modifies: %s: the argument is not an interface made from a pointer at a known site", exprString(x)))
+				}
+				n := len(leavesOf(elemType(pt)))
+				return []modLoc{{root: v.Root, lo: v.Base, hi: v.Base + n, obj: v.L[1], idx: v.L[2], src: src}}
 			case "mapof":
 				m := env.eval(call.Args[0])
 				return []modLoc{{mapT: m.T.Underlying().(*types.Map), obj: m.L[0], src: src}}
+			}
+		}
+	}
+	// family(T).f: the field f of every object of type T
+	if sel, ok := x.(*ast.SelectorExpr); ok {
+		if call, ok := sel.X.(*ast.CallExpr); ok {
+			if id, ok := call.Fun.(*ast.Ident); ok && id.Name == "family" {
+				typ := env.c.eng.resolveTypeExpr(env.pkg, call.Args[0])
+				stt, ok := typ.Underlying().(*types.Struct)
+				if !ok {
+					panic(specErr("modifies: %s: not a struct type", exprString(x)))
+				}
+				for i := 0; i < stt.NumFields(); i++ {
+					if stt.Field(i).Name() == sel.Sel.Name {
+						lo := fieldOffset(stt, i)
+						return []modLoc{{root: typ, lo: lo, hi: lo + len(leavesOf(stt.Field(i).Type())), obj: IntT(0), anyObj: true, allIdx: true, src: src}}
+					}
+				}
+				panic(specErr("modifies: %s: no such field", exprString(x)))
 			}
 		}
 	}
@@ -701,7 +748,8 @@ func (f *frame) applyContract(fs *FuncSpec, callee *ssa.Function, sig *types.Sig
 						}
 						cs = append(cs, Or(alts...))
 					} else {
-						cs = append(cs, Or(Ge(l.obj, alloc0), inLocs(c.modLocs, l.root, k, l.obj, l.idx)))
+						// a cell of the nil object is no memory location (a write through nil fails its own obligation)
+						cs = append(cs, Or(Ge(l.obj, alloc0), Eq(l.obj, IntT(0)), inLocs(c.modLocs, l.root, k, l.obj, l.idx)))
 					}
 				}
 				goal = And(cs...)
